@@ -39,9 +39,12 @@ TRUSTED_BASE = [
     "CPython executes one source line of one thread between two settrace line events when only one thread is runnable",
 ]
 ASSUMPTIONS = [
-    "liveness proper (a waiting writer is *eventually* admitted) needs scheduler fairness; proved: some thread is always "
-    "enabled, the token holder is never blocked, and a waiter at queue position k has exactly the k earlier waiters "
-    "(plus the token holder / open transaction) ahead of it (safety form)",
+    "liveness proper (a waiting writer is *eventually* admitted) needs scheduler fairness and is partial; proved for every "
+    "interleaving: some thread is always enabled while anyone is unfinished (deadlock_free), the token holder and the lock "
+    "holder are never blocked (token_holder_enabled, lock_hold_bounded), and a waiter at queue position k is exactly the "
+    "(|admitted|+|token holder|+k)-th admission, not earlier and with nobody else in between (bounded_bypass)",
+    "the trace validation runs the model's silent steps (event=None, the admission test, _setup_version reads, the body, "
+    "prune) lazily right before the thread's next visible step; the theorems quantify over every placement of them",
     "version pruning is outside this model (C11); the implementation's deque is compared through its last element",
     "every model thread runs one transaction; a thread running several in sequence is the same as several threads "
     "(the protocol never looks at thread identity)",
@@ -546,7 +549,7 @@ def run(ctx: Ctx):
     exhaustive(ctx, ["wca", "wca"], "sync", 400)
     exhaustive(ctx, ["wca", "wra"], "sync", 400)
     exhaustive(ctx, ["wca", "wca"], "line", 2000)
-    generate(ctx, ctx.n(3000, 12000), rng)
+    generate(ctx, ctx.n(3000, 10000), rng)
     malformed(ctx, rng.fork(3), ctx.n(60, 600))
     if ctx.tier == "thorough":
         # exhaustive at line granularity (every interleaving of the source lines of the anchored functions; a state
@@ -558,7 +561,7 @@ def run(ctx: Ctx):
         exhaustive(ctx, ["wca", "wca", "wca"], "line", 40000)
         exhaustive(ctx, ["wca", "wca", "rd"], "line", 60000)
         # beyond the exhaustive scopes: 4 writers, at most 2 preemptive switches, lock/event granularity
-        exhaustive(ctx, ["wca", "wra", "wca", "wca"], "sync", 6000, bound=2, use_keys=False)
+        exhaustive(ctx, ["wca", "wra", "wca", "wca"], "sync", 3000, bound=2, use_keys=False)
 
 
 def search(ctx: Ctx):
